@@ -332,8 +332,17 @@ def diagnose(run_lines, wd, tag):
                                           os.path.join(wd, "diag_%s.tlc" % tag), timeout=40)
     except ToolError as e:
         return {"ids": [], "raw": str(e), "complete": False}
-    ids = sorted(set(re.findall(r'"(C[0-9C]+)"', sets)))
-    return {"ids": ids, "raw": sets, "complete": consumed >= n}
+    # the explanations of minimum size; ids = union of those
+    body = sets.strip()
+    body = body[1:-1] if body.startswith("{") else body
+    inner = re.findall(r"\{([^{}]*)\}", body)
+    expl = [sorted(set(re.findall(r'"(C[0-9C]+)"', x))) for x in inner]
+    expl = [e for e in expl if e]
+    ids = []
+    if expl:
+        mn = min(len(e) for e in expl)
+        ids = sorted(set(i for e in expl if len(e) == mn for i in e))
+    return {"ids": ids, "raw": sets, "complete": consumed >= n, "explanations": expl}
 
 
 # --------------------------------------------------------------------------- findings / verdicts
